@@ -133,6 +133,23 @@ pub fn check_prog(p: &Prog, rep: &mut Report) {
     }
     rep.nontrivial.insert(hash64(&p.src));
     rep.outcomes.insert(outcome);
+    // visibility does not depend on the write options: the same program under a second option set (validation on,
+    // other derives, another representation) must give the same table. Quick tier: every 4th program.
+    if rep.thorough() || hash64(&p.key) % 4 == 0 {
+        let alt = Config { validate: Validate::All, bytemuck_vertex: true, serde: true, repr: Repr::Nalgebra, encase: true, ..Config::default() };
+        rep.evaluations += 1;
+        match generate(&p.src, &alt) {
+            Outcome::Ok(t2) => match observed_visibility(&t2) {
+                Ok((vis2, pc2)) => {
+                    if vis2 != vis || pc2 != pc {
+                        rep.violation(format!("{}|options", p.key), "visibility table differs between two option sets".to_string(), json!({"wgsl": p.src, "config": alt.key(), "base": cfg.key()}));
+                    }
+                }
+                Err(e) => machinery(&format!("C03 cannot read generated module for {} ({}): {e}", p.key, alt.key())),
+            },
+            other => rep.violation(format!("{}|options", p.key), format!("generation fails under a second option set: {}", other.class().chars().take(80).collect::<String>()), json!({"wgsl": p.src, "config": alt.key()})),
+        }
+    }
 }
 
 // ---------------------------------------------------------------------------------------------
